@@ -336,6 +336,15 @@ func (v *Verifier) VerifyFunc(fn *ssa.Function, ct *FuncContract, display string
 		fc.vals[p] = pv
 		fc.params[p.Name()] = pv
 		fc.assume(reach, fc.typeInv(st, n, p.Type()))
+		// the fields of a struct a pointer parameter points to are Go values too
+		if stt, ok := derefStruct(p.Type()); ok {
+			su := stt.Underlying().(*types.Struct)
+			for i := 0; i < su.NumFields(); i++ {
+				hk := fc.heapComp(stt, i)
+				fv := "(select " + fc.get(st, hk) + " " + n + ")"
+				fc.assume(reach, implies("(not (= "+n+" 0))", fc.typeInv(st, fv, su.Field(i).Type())))
+			}
+		}
 	}
 	for _, fv := range fn.FreeVars {
 		et := fv.Type().Underlying().(*types.Pointer).Elem()
